@@ -518,9 +518,16 @@ def tested_vector(sv, node):
                     out.append((a, ctx.term(a["r"])))
                     break
                 out.append((a, ctx.term(a["r"])))
-                br = inner_if[0]
-                pol = any(z is br.get("then") for z in [a] + list(ancestors(a)))
-                arms.append(frozenset(cond_atoms(ctx, br["cond"], pol)) if len(inner_if) == 1 else None)
+                # the path condition of the assignment inside the statement it belongs to: one `if`, or an `if / else if` chain
+                atoms_, okarm = [], True
+                for br in inner_if:
+                    in_then = any(z is br.get("then") for z in [a] + list(ancestors(a)))
+                    in_else = br.get("else") is not None and any(z is br.get("else") for z in [a] + list(ancestors(a)))
+                    if not (in_then or in_else):
+                        okarm = False
+                        break
+                    atoms_.extend(cond_atoms(ctx, br["cond"], in_then))
+                arms.append(frozenset(atoms_) if okarm else None)
             flat = []
             for a, t in out:
                 stack = [t]
@@ -538,9 +545,28 @@ def _covered(ctx, arms, at):
     if any(a is None for a in arms):
         return False
     want = set(arms)
+
+    def implied(arm, alt):
+        """alt (one equality x == c) makes every atom of the arm true: the arm contains it, and its other atoms are x != c' with c' != c"""
+        if len(alt) != 1:
+            return False
+        (eq,) = tuple(alt)
+        if eq not in arm or eq[0] != "cmp" or eq[1] != "==":
+            return arm == alt
+        for at_ in arm:
+            if at_ == eq:
+                continue
+            if not (at_[0] == "cmp" and at_[1] == "!=" and {at_[2], at_[3]} & {eq[2], eq[3]} and
+                    all(t[0] == "num" for t in ({at_[2], at_[3]} ^ {eq[2], eq[3]})) and len({at_[2], at_[3]} ^ {eq[2], eq[3]}) == 2):
+                return False
+        return True
     for f in facts(ctx, at):
-        if f[0] == "or" and {frozenset(alt) for alt in f[1]} == want:
-            return True
+        if f[0] == "or":
+            alts = [frozenset(alt) for alt in f[1]]
+            if set(alts) == want:
+                return True
+            if all(any(implied(arm, alt) for alt in alts) for arm in want) and all(any(implied(arm, alt) for arm in want) for alt in alts):
+                return True
     return False
 
 
